@@ -330,6 +330,10 @@ impl McNode {
 		for (cid, m) in monitors.into_iter() {
 			mon.watch_channel(cid, m).map_err(|_| "watch_channel failed".to_string())?;
 		}
+		if self.deferred {
+			// the monitors loaded at start-up are registered before anything else happens
+			mon.flush(mon.pending_operation_count(), &self.logger);
+		}
 		self.cm = Arc::new(cm);
 		self.mon = mon;
 		self.restarts += 1;
